@@ -40,21 +40,32 @@ const DB = "db"
 // SliceName returns the name of slice i.
 func SliceName(i int) string { return fmt.Sprintf("slice-%d", i) }
 
-// Namespace builds a namespace with nSlices slices and the given shard rules.
+// Namespace builds a namespace with nSlices slices (slice-0, slice-1, ...) and the given
+// shard rules.
 func Namespace(nSlices int, rules []*models.Shard, seqs []*models.GlobalSequence) *models.Namespace {
+	var names []string
+	for i := 0; i < nSlices; i++ {
+		names = append(names, SliceName(i))
+	}
+	return NamespaceNamed(names, rules, seqs)
+}
+
+// NamespaceNamed builds a namespace whose slices carry the given names, in that order; the
+// first one is the default slice.
+func NamespaceNamed(names []string, rules []*models.Shard, seqs []*models.GlobalSequence) *models.Namespace {
 	ns := &models.Namespace{
 		Name:            "ns",
 		Online:          true,
 		AllowedDBS:      map[string]bool{DB: true},
 		DefaultPhyDBS:   map[string]string{DB: DB},
-		DefaultSlice:    SliceName(0),
+		DefaultSlice:    names[0],
 		ShardRules:      rules,
 		GlobalSequences: seqs,
 		Users: []*models.User{{UserName: "u", Password: "p", Namespace: "ns",
 			RWFlag: 2, RWSplit: 1}},
 	}
-	for i := 0; i < nSlices; i++ {
-		ns.Slices = append(ns.Slices, &models.Slice{Name: SliceName(i), UserName: "root",
+	for i, n := range names {
+		ns.Slices = append(ns.Slices, &models.Slice{Name: n, UserName: "root",
 			Password: "root", Master: fmt.Sprintf("127.0.0.1:%d", 3306+i), Capacity: 8,
 			MaxCapacity: 16, IdleTimeout: 3600})
 	}
